@@ -16,7 +16,11 @@ by the construction — only the run-time walk (`Driver/JsonCodec.lean`) looks a
 
 `codecF` mirrors `constructCodec` AS WRITTEN, threading the `seen` map (struct types under construction or built, keyed
 by type AND addressability; named slice/map/pointer/array types under construction keyed by type alone and deleted on
-the way out). Recursion is on fuel because a `ref` unfolds to its definition; `choose_terminates`
+the way out). A struct type under construction carries `structType.root` (`Entry.building root`): the struct type its
+fields are being promoted to. An embedded struct type that is under construction for ANOTHER root (the cycle goes
+through a regular field: `type T struct { F []struct{ T } }`) has its fields listed a second time (`embeddedF`, `listF`);
+for the SAME root it is a cycle of embedded structs and nothing is promoted. Recursion is on fuel because a `ref`
+unfolds to its definition and a second listing walks a struct type again; `choose_terminates`
 (Lemmas/JsonCodecChoiceTerm.lean) shows the fuel `fuelFor` always suffices.
 
 Not modelled here (other anchors): which fields of a struct are serialised under which name (Model/Json/Fields.lean —
@@ -218,10 +222,12 @@ def CL.mapChoice (f : Choice → Choice) : CL → CL
 /-- `structKey` -/
 abbrev Key := TD × Bool
 
-/-- what `seen` holds for a key: a structType whose `fields` are not assigned yet (also: the nil entry of a named
-slice/map/pointer/array type under construction), or a finished one -/
+/-- what `seen` holds for a key: a structType whose `fields` are not assigned yet — `root` is its construction-only
+marker `structType.root`: the key of the struct type its fields are being promoted to, its own key if none (also: the
+nil entry of a named slice/map/pointer/array type under construction, with its own key) —, or a finished one
+(`root == nil`) -/
 inductive Entry where
-  | building
+  | building (root : TD × Bool)
   | done (fs : CL)
   deriving DecidableEq, Repr
 
@@ -285,7 +291,10 @@ def integerType (u : TD) : TD :=
   | u => u
 
 abbrev CodecFn := TD → Bool → Seen → Option (Choice × Seen)
-abbrev StructFn := TD → Bool → Seen → Option (Entry × Seen)
+/-- `constructStructType(t, seen, canAddr, root)`: `root = none` for the type of a regular field or value -/
+abbrev StructFn := TD → Bool → Option Key → Seen → Option (Entry × Seen)
+/-- `appendStructFields(nil, t, 0, seen, canAddr, root)` -/
+abbrev ListFn := TD → Bool → Key → Seen → Option (CL × Seen)
 
 /-- go: json.constructStringCodec (encode side) -/
 def stringCodecF (codec : CodecFn) (env : Env) (k : TD) (seen : Seen) : Option (Choice × Seen) :=
@@ -336,9 +345,25 @@ def stringifyF (codec : CodecFn) (env : Env) (canAddr : Bool) (ft : TD) (c : Cho
     | none => none
   else some (q, seen)
 
+/-- go: json.appendStructFields, the embedded branch: the fields promoted from the embedded struct type `typ` -/
+def embeddedF (strct : StructFn) (list : ListFn) (typ : TD) (b : Bool) (root : Key) (seen : Seen) : Option (CL × Seen) :=
+  match strct typ b (some root) seen with
+  | none => none
+  | some (.done fs, seen) => some (fs, seen)
+  | some (.building r, seen) =>
+    -- `subtype.root != nil`: still being constructed further up the stack, no list of fields yet
+    if r == root then some (.nil, seen)       -- for the same root: a cycle of embedded structs, nothing is promoted
+    else
+      -- the cycle goes through a regular field: the fields are listed a second time, on behalf of the root, while
+      -- `subtype.root` is temporarily `root`
+      match list typ b root (seen.set (typ, b) (.building root)) with
+      | none => none
+      | some (fs, seen) => some (fs, seen.set (typ, b) (.building r))
+
 /-- go: json.appendStructFields (the first loop, in field order; the promoted fields of an embedded struct are put in
 place — the Go code appends them afterwards and sorts by `index = i<<32|j`, which is the same order) -/
-def fieldsF (codec : CodecFn) (strct : StructFn) (env : Env) (canAddr : Bool) : FL → Seen → Option (CL × Seen)
+def fieldsF (codec : CodecFn) (strct : StructFn) (list : ListFn) (env : Env) (canAddr : Bool) (root : Key) :
+    FL → Seen → Option (CL × Seen)
   | .nil, seen => some (.nil, seen)
   | .cons name emb str ft rest, seen =>
     -- `f.Type.Kind() == reflect.Ptr` for an embedded field: Go only lets a type name T or `*T` (T not a pointer type)
@@ -347,13 +372,11 @@ def fieldsF (codec : CodecFn) (strct : StructFn) (env : Env) (canAddr : Bool) : 
     let typ := peel ft
     if emb && isStructKind (under env typ) then
       -- what an embedded pointer points to is always addressable
-      match strct typ (canAddr || isP) seen with
+      match embeddedF strct list typ (canAddr || isP) root seen with
       | none => none
-      | some (e, seen) =>
-        -- a structType that is still being built has no fields yet
-        let sub := match e with | .done fs => fs | .building => CL.nil
+      | some (sub, seen) =>
         let sub := if isP then sub.mapChoice .embedPtr else sub
-        match fieldsF codec strct env canAddr rest seen with
+        match fieldsF codec strct list env canAddr root rest seen with
         | none => none
         | some (r, seen) => some (sub.append r, seen)
     else
@@ -363,7 +386,7 @@ def fieldsF (codec : CodecFn) (strct : StructFn) (env : Env) (canAddr : Bool) : 
         match (if str then stringifyF codec env canAddr ft c seen else some (c, seen)) with
         | none => none
         | some (c, seen) =>
-          match fieldsF codec strct env canAddr rest seen with
+          match fieldsF codec strct list env canAddr root rest seen with
           | none => none
           | some (r, seen) => some (.cons name ft c r, seen)
 
@@ -375,7 +398,7 @@ def fieldsOf (env : Env) (t : TD) : FL :=
 /-- the encoder `constructStructEncodeFunc(st)` for what `seen` holds -/
 def Entry.toChoice (t : TD) (canAddr : Bool) : Entry → Choice
   | .done fs => .struct fs
-  | .building => .structRef t canAddr
+  | .building _ => .structRef t canAddr
 
 /-- go: json.constructCodec, the switch on `t.Kind()` (`u` = the structure behind the kind; `codec`, `strct` = the
 recursive calls) -/
@@ -414,7 +437,7 @@ def kindF (codec : CodecFn) (strct : StructFn) (env : Env) (t u : TD) (canAddr :
             some (.map kc vc, seen))
   | .struct _ =>
     -- go: json.constructStructCodec
-    (match strct t canAddr seen with
+    (match strct t canAddr none seen with
       | some (e, seen) => some (e.toChoice t canAddr, seen)
       | none => none)
   | .ptr e =>
@@ -448,20 +471,28 @@ def codecF : Nat → Env → TD → Bool → Seen → Option (Choice × Seen)
       if named && (seen.find (t, false)).isSome then some (.recur t canAddr, seen)
       else
         match kindF (codecF fuel env) (structF fuel env) env t (under env t) canAddr
-            (if named then seen.set (t, false) .building else seen) with
+            (if named then seen.set (t, false) (.building (t, false)) else seen) with
         | none => none
         | some (c, seen) =>
           some (marshalerOverride env t canAddr c, if named then seen.erase (t, false) else seen)
-/-- go: json.constructStructType: THE structType of (t, canAddr) within one construction -/
-def structF : Nat → Env → TD → Bool → Seen → Option (Entry × Seen)
-  | 0, _, _, _, _ => none
-  | fuel + 1, env, t, canAddr, seen =>
+/-- go: json.constructStructType: THE structType of (t, canAddr) within one construction; a new one is marked with the
+root it is being embedded in, with itself if none, until its list of fields is complete -/
+def structF : Nat → Env → TD → Bool → Option Key → Seen → Option (Entry × Seen)
+  | 0, _, _, _, _, _ => none
+  | fuel + 1, env, t, canAddr, root, seen =>
     match seen.find (t, canAddr) with
     | some e => some (e, seen)
     | none =>
-      match fieldsF (codecF fuel env) (structF fuel env) env canAddr (fieldsOf env t) (seen.set (t, canAddr) .building) with
+      let r := root.getD (t, canAddr)
+      match fieldsF (codecF fuel env) (structF fuel env) (listF fuel env) env canAddr r (fieldsOf env t)
+          (seen.set (t, canAddr) (.building r)) with
       | none => none
       | some (fs, seen) => some (.done fs, seen.set (t, canAddr) (.done fs))
+/-- go: json.appendStructFields(nil, t, 0, seen, canAddr, root): the second listing -/
+def listF : Nat → Env → TD → Bool → Key → Seen → Option (CL × Seen)
+  | 0, _, _, _, _, _ => none
+  | fuel + 1, env, t, canAddr, root, seen =>
+    fieldsF (codecF fuel env) (structF fuel env) (listF fuel env) env canAddr root (fieldsOf env t) seen
 end
 
 /-! ## Fuel that always suffices (proved: `choose_terminates`) -/
@@ -493,10 +524,49 @@ def allKeys : Env → List Key
 def unseen (env : Env) (seen : Seen) : Nat :=
   ((allKeys env).filter fun k => (seen.find k).isNone).length
 
-def fuelNeeded (env : Env) (seen : Seen) (size : Nat) : Nat :=
-  2 * (unseen env seen * (maxDef env + 2) + size) + 1
+/-! The potential of the construction proper. `univ env t`: every type term the construction of `t` can meet (the text
+of `t` and of the definitions); `keysOf`: the keys `seen` can ever hold. Two things get used up: keys that are not in
+`seen` yet (`absent`), and — while the fields are listed on behalf of one root — struct types under construction that
+are marked with another root (`foreign`: a second listing marks one of them). -/
 
-def fuelFor (env : Env) (t : TD) : Nat := fuelNeeded env [] t.size
+mutual
+def subs : TD → List TD
+  | .slice e => .slice e :: subs e
+  | .array n e => .array n e :: subs e
+  | .ptr e => .ptr e :: subs e
+  | .map k v => .map k v :: (subs k ++ subs v)
+  | .struct fs => .struct fs :: subsF fs
+  | .nil => [.nil]
+  | .prim k => [.prim k]
+  | .special s => [.special s]
+  | .any d => [.any d]
+  | .iface a b d => [.iface a b d]
+  | .ref id => [.ref id]
+def subsF : FL → List TD
+  | .nil => []
+  | .cons _ _ _ t r => subs t ++ subsF r
+end
+
+def univ (env : Env) (t : TD) : List TD := subs t ++ env.flatMap fun p => subs p.2.under
+
+def keysOf (l : List TD) : List Key := l.flatMap fun x => [(x, false), (x, true)]
+
+def maxSize : List TD → Nat
+  | [] => 0
+  | x :: r => max x.size (maxSize r)
+
+def absent (U : List Key) (seen : Seen) : Nat := (U.filter fun k => (seen.find k).isNone).length
+
+def isForeign (seen : Seen) (root : Key) (k : Key) : Bool :=
+  match seen.find k with
+  | some (.building r) => r != root
+  | _ => false
+
+def foreign (U : List Key) (seen : Seen) (root : Key) : Nat := (U.filter (isForeign seen root)).length
+
+def fuelFor (env : Env) (t : TD) : Nat :=
+  let U := keysOf (univ env t)
+  2 * (U.length * (U.length + 1) * (maxSize (univ env t) + 2) + t.size) + 1
 
 /-- `constructCodec(t, map[structKey]*structType{}, canAddr)` -/
 def choose (env : Env) (t : TD) (canAddr : Bool) : Choice × Seen :=
